@@ -3,6 +3,7 @@ package checks
 import (
 	"errors"
 	"fmt"
+	binpb "github.com/google/fhir/go/proto/google/fhir/proto/r4/core/resources/binary_go_proto"
 	"google.golang.org/protobuf/types/known/anypb"
 	"sort"
 	"strconv"
@@ -213,6 +214,33 @@ func c20Walk(m protoreflect.Message, want protoreflect.FullName, out *[]proto.Me
 	})
 }
 
+// c20CountUnderContained counts the messages of the wanted type that lie below a ContainedResource-typed field
+// (Bundle.entry.resource and the like); `below` says whether such a field has been crossed already.
+func c20CountUnderContained(m protoreflect.Message, want protoreflect.FullName, below bool) int {
+	n := 0
+	m.Range(func(fd protoreflect.FieldDescriptor, v protoreflect.Value) bool {
+		if fd.Message() == nil || fd.IsMap() || fd.Message().FullName() == "google.protobuf.Any" {
+			return true
+		}
+		b := below || fd.Message().FullName() == "google.fhir.r4.core.ContainedResource"
+		visit := func(c protoreflect.Message) {
+			if b && c.Descriptor().FullName() == want {
+				n++
+			}
+			n += c20CountUnderContained(c, want, b)
+		}
+		if fd.IsList() {
+			for i := 0; i < v.List().Len(); i++ {
+				visit(v.List().Get(i).Message())
+			}
+		} else {
+			visit(v.Message())
+		}
+		return true
+	})
+	return n
+}
+
 // c20CountInAny counts the messages of the wanted type inside Any-packed contained resources (recursively).
 func c20CountInAny(m protoreflect.Message, want protoreflect.FullName) int {
 	n := 0
@@ -318,7 +346,7 @@ func init() {
 	urls := []string{"http://u", "http://v", "http://w"}
 	core.Register(&core.Check{
 		ID:          "C20",
-		Rule:        "all 146 resource type names (from the ContainedResource descriptor): create by name / Type / TypeOf, containedresource and bundle-entry wrap/unwrap identity, bundle.Unwrap order and bundle.UnwrapMap grouping over all ordered selections of <=3 of 5 resources, rejected names; all 49 Extension.value[x] alternatives (from the descriptor) and every other registered element type: FromElement/Unwrap identity and the field that is set; extension mutators {Upsert, SetByURL x 0/1/2 values, AppendInto, Overwrite, Clear} over all extension lists of length 0..4 over 3 URLs x target URL in {present-able, absent} x 2 carriers against a list model with pointer identity of the untouched extensions; the path-less ExtractAll (every own element exactly once, also where labelling is documented to fail) and ExtractAllWithPath for 6 element types over the schema-covering resource family (every field populated, each-choice covering, depth 2 quick / 3 thorough): pointer set equals the harness's own protoreflect walk, labels unique, each label resolves in the jsonformat tree and (without choice-typed steps) through fhirpath.Evaluate to that very element; non-trivial = distinct (case, outcome)",
+		Rule:        "all 146 resource type names (from the ContainedResource descriptor): create by name / Type / TypeOf, containedresource and bundle-entry wrap/unwrap identity for the empty instance, three generated instances and (Binary) five content types, bundle.Unwrap order and bundle.UnwrapMap grouping over all ordered selections of <=3 of 5 resources, rejected names; all 49 Extension.value[x] alternatives (from the descriptor) and every other registered element type: FromElement/Unwrap identity and the field that is set; extension mutators {Upsert, SetByURL x 0/1/2 values, AppendInto, Overwrite, Clear} over all extension lists of length 0..4 over 3 URLs x target URL in {present-able, absent} x 2 carriers against a list model with pointer identity of the untouched extensions; the path-less ExtractAll (every own element exactly once, also where labelling is documented to fail) and ExtractAllWithPath for 6 element types over the schema-covering resource family (every field populated, each-choice covering, depth 2 quick / 3 thorough): pointer set equals the harness's own protoreflect walk, labels unique, each label resolves in the jsonformat tree and (without choice-typed steps) through fhirpath.Evaluate to that very element; non-trivial = distinct (case, outcome)",
 		Assumptions: []string{"google/fhir jsonformat output is the FHIR JSON tree", "elements inside a ContainedResource-typed field (Bundle.entry.resource, Parameters.parameter.resource) must yield the documented ErrFhirPathNotImplemented"},
 		Subs: func(tier string) []core.Sub {
 			names := lib.ResourceTypeNames()
@@ -393,6 +421,56 @@ func init() {
 							r.Fail("bundle."+mk.name+"|UnwrapEntry-is-not-the-resource", w)
 						}
 						r.Eval()
+					}
+					// populated instances as well: what is wrapped must not matter (content types, ids, nested content)
+					var populated []fhir.Resource
+					for v := 0; v < 3; v++ {
+						populated = append(populated, proto.Clone(lib.GenResource(n, v, 1)).(fhir.Resource))
+					}
+					if n == "Binary" {
+						for _, ct := range []string{"application/json-patch+json", "application/fhir+json", "application/pdf", "text/plain", ""} {
+							populated = append(populated, &binpb.Binary{Id: fhir.ID("b1"), ContentType: &binpb.Binary_ContentTypeCode{Value: ct}, Data: fhir.Base64Binary([]byte("[]"))})
+						}
+					}
+					for pi2, pres := range populated {
+						pw := core.W{"type": n, "instance": pi2}
+						var back fhir.Resource
+						if pi := core.Try(func() { back = containedresource.Unwrap(containedresource.Wrap(pres)) }); pi != nil {
+							r.Fail("containedresource|populated|"+pi.Key(), pw)
+						} else if !c20Same(back, pres) {
+							r.Fail("containedresource|populated|Unwrap(Wrap(x))-is-not-x", pw)
+						}
+						for _, mk := range []struct {
+							name string
+							f    func() *bcrpb.Bundle_Entry
+						}{{"NewCollectionEntry", func() *bcrpb.Bundle_Entry { return bundle.NewCollectionEntry(pres) }}, {"NewPostEntry", func() *bcrpb.Bundle_Entry { return bundle.NewPostEntry(pres) }},
+							{"NewPutEntry", func() *bcrpb.Bundle_Entry { return bundle.NewPutEntry(pres) }}} {
+							var got fhir.Resource
+							if pi := core.Try(func() { got = bundle.UnwrapEntry(mk.f()) }); pi != nil {
+								r.Fail("bundle."+mk.name+"|populated|"+pi.Key(), pw)
+							} else if !c20Same(got, pres) {
+								r.Fail("bundle."+mk.name+"|populated|UnwrapEntry-is-not-the-resource", pw)
+							}
+							r.Eval()
+						}
+					}
+					var unwrapped []fhir.Resource
+					if pi := core.Try(func() {
+						var es []*bcrpb.Bundle_Entry
+						for _, pres := range populated {
+							es = append(es, bundle.NewCollectionEntry(pres))
+						}
+						unwrapped = bundle.Unwrap(bundle.NewCollection(bundle.WithEntries(es...)))
+					}); pi != nil {
+						r.Fail("bundle.Unwrap|populated|"+pi.Key(), w)
+					} else {
+						okU := len(unwrapped) == len(populated)
+						for k := range populated {
+							okU = okU && c20Same(unwrapped[k], populated[k])
+						}
+						if !okU {
+							r.Fail("bundle.Unwrap|populated|order-or-identity", w)
+						}
 					}
 					// names that must be rejected
 					for _, bad := range []string{strings.ToLower(n), strings.ToUpper(n), n + " ", " " + n, n + "X", n[:len(n)-1]} {
@@ -702,8 +780,14 @@ func init() {
 								}
 							}
 							if err != nil {
-								if nested && errors.Is(err, element.ErrFhirPathNotImplemented) {
+								// the documented labelling gap concerns elements INSIDE a nested resource only
+								insideNested := c20CountInAny(res.ProtoReflect(), ex.full) + c20CountUnderContained(res.ProtoReflect(), ex.full, false)
+								if nested && insideNested > 0 && errors.Is(err, element.ErrFhirPathNotImplemented) {
 									r.Outcome("documented-error")
+									continue
+								}
+								if nested && insideNested == 0 && errors.Is(err, element.ErrFhirPathNotImplemented) {
+									r.Fail("extract|"+cls+"|labelling-refused-although-no-such-element-is-inside-a-nested-resource", core.W{"type": n, "variant": vi, "err": err.Error(), "own_elements": len(want)})
 									continue
 								}
 								r.Fail("extract|"+cls+"|unexpected-error", core.W{"type": n, "variant": vi, "err": err.Error()})
